@@ -209,6 +209,26 @@ class HoistSetupCallsIntoConditionals(RewritePattern):
             if block.get_operation_index(launch_op) < block.get_operation_index(op):
                 return
 
+        # the values we set up must already be available at the scf.if,
+        # otherwise the hoisted setup would use them before their definition
+        if_op = op.in_state.owner
+        if_block = if_op.parent_block()
+        assert if_block is not None
+        for val in op.values:
+            if not val_is_defined_in_block(val, if_block):
+                continue
+            if isinstance(val, OpResult):
+                # find the op in the block of the scf.if that (transitively) contains the definition
+                def_op = val.owner
+                while def_op.parent_block() is not if_block:
+                    def_op = def_op.parent_op()
+                    assert def_op is not None
+                if if_block.get_operation_index(def_op) >= if_block.get_operation_index(if_op):
+                    return
+            elif val.owner is not if_block:
+                # block argument of a block nested in an op of this block
+                return
+
         # Step 2: Clone the op into the end of both branches
         for region in op.in_state.owner.regions:
             # grab the yield op:
